@@ -39,10 +39,33 @@ class Walk:
         self.self_name = F.self_name
 
     # -- discovery --------------------------------------------------------
+    def aliases(self):
+        """local name -> attribute for ``name = self.<attr>`` bound once."""
+        if not hasattr(self, '_al'):
+            self._al = {}
+            for n in ast.walk(self.F.node):
+                if isinstance(n, ast.Assign) and len(n.targets) == 1 and \
+                        isinstance(n.targets[0], ast.Name) and isinstance(
+                            n.value, ast.Attribute) and isinstance(
+                                n.value.value, ast.Name) and \
+                        n.value.value.id == self.self_name:
+                    nm = n.targets[0].id
+                    v = self.ctx.prog.single_local_def(self.F, nm)
+                    if v is n.value:
+                        self._al[nm] = n.value.attr
+        return self._al
+
+    def map_attr(self, e):
+        if isinstance(e, ast.Attribute) and isinstance(e.value, ast.Name) \
+                and e.value.id == self.self_name:
+            return e.attr
+        if isinstance(e, ast.Name) and e.id in self.aliases():
+            return self.aliases()[e.id]
+        return None
+
     def is_map(self, e, attr=None):
-        return (isinstance(e, ast.Attribute) and isinstance(e.value, ast.Name)
-                and e.value.id == self.self_name and
-                (attr is None or e.attr == attr))
+        a = self.map_attr(e)
+        return a is not None and (attr is None or a == attr)
 
     def counter_attr(self):
         """The attribute whose items are stored with +1 / -1 arithmetic."""
@@ -58,7 +81,7 @@ class Walk:
                         isinstance(b, ast.BinOp) and isinstance(
                             b.op, (ast.Add, ast.Sub))
                         for b in ast.walk(val)) or isinstance(val, ast.Name):
-                    cands.add(tgt.value.attr)
+                    cands.add(self.map_attr(tgt.value))
         return cands
 
     def loop_of(self, attr):
